@@ -10,7 +10,6 @@ import (
 	apiv1 "github.com/attestantio/go-eth2-client/api/v1"
 	"github.com/attestantio/go-eth2-client/spec/phase0"
 	"github.com/attestantio/vouch/internal/vnd"
-	"github.com/rs/zerolog"
 )
 
 // c03Chain answers the constructor's genesis and spec queries with the
@@ -36,7 +35,7 @@ func (c *c03Chain) Spec(_ context.Context, _ *api.SpecOpts) (*api.Response[map[s
 // time, SECONDS_PER_SLOT and SLOTS_PER_EPOCH from the providers.
 func c03New(genesis time.Time, slotDuration time.Duration, slotsPerEpoch uint64) *Service {
 	chain := &c03Chain{genesis: genesis, slotDuration: slotDuration, slotsPerEpoch: slotsPerEpoch}
-	s, err := New(context.Background(), WithLogLevel(zerolog.Disabled), WithGenesisProvider(chain), WithSpecProvider(chain))
+	s, err := New(context.Background(), WithLogLevel(vnd.LogLevel()), WithGenesisProvider(chain), WithSpecProvider(chain))
 	vnd.Assert(err == nil && s != nil, "C03.new.accepted")
 	return s
 }
